@@ -1,5 +1,7 @@
 import Driver.ReplayD
+import Driver.MessageD
 import GoSSE.Gen.Replay
+import GoSSE.Gen.Unmarshal
 /-!
 Ops that run the *translated* replayers (`GoSSE/Gen/Replay.lean`: `FiniteReplayer.Put/Replay`, `ValidReplayer.Put/GC/Replay`
 with `ensureID`, `findIDInQueue`, `queue.each` …, regenerated from /repo's replay.go on every run) over whole histories:
@@ -157,8 +159,46 @@ def gvalid (args : List String) : String × String :=
       (validGen v 0 0 (parseOps ops) [], hand)
   | _ => ("bad-args", "bad-args")
 
+/-! ### `Message.UnmarshalText` as translated -/
+
+def modelMsg (m : Gen.Message) : Model.Message :=
+  { chunks := m.chunks.map fun c => { content := c.content, isComment := c.isComment },
+    id := { value := m.ID.messageField.value, set := m.ID.messageField.set },
+    typ := { value := m.Type'.messageField.value, set := m.Type'.messageField.set }, retry := m.Retry }
+
+/-- the receiver before the call: every kind of field set (the harness' `junkMessage`) -/
+def junk : Gen.Message :=
+  { chunks := [{ content := "junk".toUTF8.toList, isComment := false }, { content := "junk".toUTF8.toList, isComment := true }],
+    ID := genID (some "junk".toUTF8.toList), Type' := { messageField := { value := "junk".toUTF8.toList, set := true } },
+    Retry := 5000000000 }
+
+/-- error classes: the translated code does not keep which `strconv` error it wrapped -/
+def errClassG : Option String → String
+  | none => "nil"
+  | some "UnmarshalError: contains character %q, which is not an ASCII digit" => "RETRY-NONDIGIT"
+  | some "UnmarshalError: invalid retry value: %w" => "RETRY-INVALID"
+  | some "UnmarshalError: ErrUnexpectedEOF" => "UEOF"
+  | some e => "OTHER(" ++ e ++ ")"
+
+def errClassM : Model.UErr → String
+  | .nil => "nil" | .retryNonDigit => "RETRY-NONDIGIT" | .retrySyntax => "RETRY-INVALID"
+  | .retryRange => "RETRY-INVALID" | .unexpectedEOF => "UEOF"
+
+/-- `GUT <hex text>` -/
+def gut (args : List String) : String × String :=
+  match Driver.MessageD.dropGo args with
+  | [t] =>
+    let p := unhex t
+    let hand := Model.Message.unmarshalText p
+    let hs := s!"{errClassM hand.2} | {Driver.MessageD.showMsg hand.1}"
+    match Gen.Message_UnmarshalText (p.length + 10) junk p with
+    | .error e => (showFault e, hs)
+    | .ok r => (s!"{errClassG r.1} | {Driver.MessageD.showMsg (modelMsg r.2)}", hs)
+  | _ => ("bad-args", "bad-args")
+
 def handle (op : String) (args : List String) : Option (String × String) :=
   match op with
+  | "GUT" => some (gut args)
   | "GFINITE" => some (gfinite args)
   | "GVALID" => some (gvalid args)
   | _ => none
